@@ -107,6 +107,8 @@ def run(chk):
             chk.check(v == "var.access_type", "R1", f"{E}:export_variable | AccessType", ex.loc(c), v)
 
     # ------------------------------------------------------------------ R2 converter agreement
+    from .edscommon import convert_kinds
+    convert_kinds(chk, "R2")            # what the exported text becomes on re-import, per data type (shared with C08.R7)
     cv = repo.func(E, "_convert_variable", "C14.R2")
     rv = repo.func(E, "_revert_variable", "C14.R2")
     chk.saw(cv); chk.saw(rv)
@@ -495,6 +497,19 @@ def run(chk):
             break
         verdicts.append((attr_, key_, miss))
     if probed:
+        # text attributes are written as they are: names with runs of spaces, tabs, '%' and '=' come back unchanged
+        for attr_, key_ in (("name", "ParameterName"), ("description", "Description"), ("unit", "Unit")):
+            diff_ = None
+            for v_ in ("Motor  speed", "a\tb", "x=%y  z", "50 %"):
+                r = export_writes(repo, folder, {attr_: v_}, False)
+                if r[0] != "writes":
+                    diff_ = "?"
+                    break
+                got_ = [v for _s, k, v in r[1] if k == key_]
+                if got_ != [v_]:
+                    diff_ = diff_ or f"{attr_} = {v_!r} is written as {got_}: the text is altered on the way into the document"
+            if diff_ != "?":
+                chk.check(diff_ is None, "R9", f"{E}:export_variable | {key_} is the {attr_} as it is", ex.loc(ev), diff_ or "", "specialised for texts with runs of spaces, a tab, '=' and '%'")
         for attr_, key_, miss in verdicts:
             chk.check(miss is None, "R9", f"{E}:export_variable | {key_} written whenever {attr_} is set", ex.loc(ev), miss or "",
                       "export_variable specialised for probe variables with the attribute set to boundary values")
